@@ -86,9 +86,13 @@ class OpsMixin:
 
     def guarded(self, fn, step):
         """call fn under the per-step fault regime (interrupt population)"""
-        k = step.get("_interrupt_at")
+        k = step.get("interrupt_at")
         if k is not None:
-            return self.call(lambda: self.interrupter.run(fn, k))
+            res = self.call(lambda: self.interrupter.run(fn, k))
+            if self.interrupter.fired_in:
+                self.note("fault:interrupt")
+                self.note("interrupt_in:%s:%s" % self.interrupter.fired_in)
+            return res
         return self.call(fn)
 
     def subquery_recover(self, step, inputs, real_fn, rep, reals, res, subject):
